@@ -7,6 +7,18 @@ use crate::{c17x, Args};
 
 const CLASS_DOC: &str = "Cases are (program, initial state, history) triples: seeded random well-formed task programs (<=10 scripted tasks with value-dependent require/read/write structure over <=6 integer cell resources, checker kinds Exact/Parity/Exists/Always on reads and writes and Exact/Parity/Always on requires) driven through 6-12 builds with 0-3 external changes in between, plus a curated library of hostile shapes. ";
 
+/// Adds the exhaustive small-scope leg (all histories of the given lengths over the curated shapes).
+fn with_exhaustive(mut r: Report, which: &'static str, t: &str, s: u64, replay: &Option<(String, u64)>) -> Report {
+  let lens: &[usize] = if t == "thorough" { &[1, 2, 3, 4, 5] } else { &[1, 2, 3, 4] };
+  match replay {
+    Some((c, n)) if c == "exhaustive" => wf::run_exhaustive(which, t, s, lens, Some(*n)),
+    Some(_) => r,
+    None => { r.merge(wf::run_exhaustive(which, t, s, lens, None)); r }
+  }
+}
+
+const EXH_DOC: &str = " Exhaustive small-scope leg: for each of 6 curated hostile shapes (read-generated-twice, diamond with cut-off, conditional require of a new task, conditional writer with coarse reader, dynamic require target, chain of generated resources with declared writes) EVERY history of 1..4 (thorough: 1..5) steps over {set any resource to absent/0/1/2, top-down require of any single task, bottom-up build, bottom-up build + require} is run between an initial build and a final build of everything, with all monitors on.";
+
 pub fn run(args: &Args) -> Report {
   let replay = match (args.get("sub"), args.get_u64("case")) { (Some(m), Some(c)) => Some((m.to_string(), c)), _ => None };
   let scale: u64 = (if args.tier == "thorough" { 600 } else { 20 }) * util::env_u64("PV_SCALE", 1);
@@ -14,14 +26,16 @@ pub fn run(args: &Args) -> Report {
   let s = args.seed;
   let mut r = match args.property.as_str() {
     "C01" => {
-      let mut r = wf::run_classes("C01", t, s, &[CP { name: "td-exact", n: 4000 * scale }, CP { name: "td-mixed", n: 6000 * scale }], replay);
+      let mut r = with_exhaustive(wf::run_classes("C01", t, s, &[CP { name: "td-exact", n: 4000 * scale }, CP { name: "td-mixed", n: 6000 * scale }], replay.clone()), "C01", t, s, &replay);
       r.rule = format!("{}Class: top-down-only histories. Monitor: every value returned by Session::require and, after the session, every resource content is compared with the from-scratch interpreter Ref run on the state the session started from (thorough: also a fresh Pie). distinct = digest(case, session index); non-trivial = a session in which at least one previously completed task was re-executed AND at least one was reused after validation.", CLASS_DOC);
+      match &replay { Some((c, n)) if c == "files" => { r = wf::run_files("C01", s, 0, Some(*n)); } Some(_) => {} None => r.merge(wf::run_files("C01", s, 150 * scale, None)) }
+      r.rule.push_str(" File-backed slice: the same generated programs over pie's real PathBuf resource on a temporary directory with the real HashChecker / ExistsChecker / ModifiedChecker (modification times set explicitly and strictly increasing) and EqualsChecker / AlwaysConsistent, outputs and file contents compared with Ref.");
       r.floor("outputs compared with Ref", r.get("outputs_compared_with_ref") > 1000);
       r.floor("re-executions and reuses both observed", r.get("re_executions") > 100 && r.get("reuses_after_validation") > 100);
       r
     }
     "C02" => {
-      let mut r = wf::run_classes("C02", t, s, &[CP { name: "td-exact", n: 5000 * scale }, CP { name: "td-mixed", n: 5000 * scale }], replay);
+      let mut r = with_exhaustive(wf::run_classes("C02", t, s, &[CP { name: "td-exact", n: 5000 * scale }, CP { name: "td-mixed", n: 5000 * scale }], replay.clone()), "C02", t, s, &replay);
       r.rule = format!("{}Class: top-down-only histories, each session followed by an identical repeated session. Monitors: at most one execution per task per session; every re-execution justified by an inconsistent/failing verdict of one of the task's own recorded dependencies in this session; per owner, the checker-side check sequence is a prefix of the declaration order ending at the first inconsistency; repeated session executes nothing; exact-checker programs execute a subset of what Ref executes. distinct/non-trivial as for C01.", CLASS_DOC);
       r.floor("idempotence probes ran", r.get("idempotence_probes") > 1000);
       r.floor("subset clause exercised", r.get("subset_clause_sessions") > 100);
@@ -29,15 +43,17 @@ pub fn run(args: &Args) -> Report {
       r
     }
     "C03" => {
-      let mut r = wf::run_classes("C03", t, s, &[CP { name: "pure-exact", n: 3000 * scale }, CP { name: "pure-mixed", n: 4000 * scale }, CP { name: "mixed-any", n: 4000 * scale }], replay);
+      let mut r = with_exhaustive(wf::run_classes("C03", t, s, &[CP { name: "pure-exact", n: 3000 * scale }, CP { name: "pure-mixed", n: 4000 * scale }, CP { name: "mixed-any", n: 4000 * scale }], replay.clone()), "C03", t, s, &replay);
       r.rule = format!("{}Classes: pure histories (every batch of external changes is reported to a bottom-up build before any partial top-down build) and mixed histories. Monitor: after every bottom-up build a probe session requires every known task in shuffled order: nothing may execute, outputs and resources must equal Ref, no abort; requires issued after the update in the same session count as well. In mixed histories an execution in the probe must be explained by the K1 classifier (producer last executed by a partial top-down build while changes were pending) or it is a violation; pure histories have no suppression. non-trivial = a bottom-up build that re-executed a completed task.", CLASS_DOC);
+      match &replay { Some((c, n)) if c == "files" => { r = wf::run_files("C03", s, 0, Some(*n)); } Some(_) => {} None => r.merge(wf::run_files("C03", s, 150 * scale, None)) }
+      r.rule.push_str(" File-backed slice: the same generated programs over pie's real PathBuf resource and real file checkers, bottom-up builds scheduled with the changed paths, followed by the same probe.");
       r.floor("probes ran", r.get("c03_probes") > 1000);
       r.floor("bottom-up builds executed tasks", r.get("bottom_up_executions") > 500);
       r.floor("queue length >= 4 observed", r.get("max_bottom_up_queue") >= 4);
       r
     }
     "C04" => {
-      let mut r = wf::run_classes("C04", t, s, &[CP { name: "pure-exact", n: 5000 * scale }, CP { name: "pure-mixed", n: 5000 * scale }], replay);
+      let mut r = with_exhaustive(wf::run_classes("C04", t, s, &[CP { name: "pure-exact", n: 5000 * scale }, CP { name: "pure-mixed", n: 5000 * scale }], replay.clone()), "C04", t, s, &replay);
       r.rule = format!("{}Class: pure histories. Monitor over each bottom-up build: at most one execution per task; every executed task is new or was reported inconsistent (checker-side verdict, cross-checked with Tracker::schedule_task); at every execution start no scheduled-and-unexecuted task is (transitively, per the shadow of declared dependencies) required by the starting task; every scheduled task is executed before the build returns. non-trivial = a build that re-executed a completed task.", CLASS_DOC);
       r.floor("bottom-up builds executed tasks", r.get("bottom_up_executions") > 500);
       r.floor("queue length >= 4 observed", r.get("max_bottom_up_queue") >= 4);
@@ -65,13 +81,13 @@ pub fn run(args: &Args) -> Report {
       r
     }
     "C08" => {
-      let mut r = wf::run_classes("C08", t, s, &[CP { name: "td-any", n: 3000 * scale }, CP { name: "mixed-any", n: 3000 * scale }, CP { name: "mixed-multi", n: 2000 * scale }], replay);
+      let mut r = with_exhaustive(wf::run_classes("C08", t, s, &[CP { name: "td-any", n: 3000 * scale }, CP { name: "mixed-any", n: 3000 * scale }, CP { name: "mixed-multi", n: 2000 * scale }], replay.clone()), "C08", t, s, &replay);
       r.rule = format!("{}Classes: top-down and mixed histories over programs whose dependency structure depends on resource values, plus the multi-checker-target mutation. Monitor: at every quiescent point the guarded store dump (nodes, edges in iteration order, edge kind, checker and stamp objects, outputs) must equal the shadow reconstructed from task-side and checker-side events, collapsed to one edge per target; every check performed must belong to a dependency of the owner's latest execution. Several declarations with different checkers on one target are reported under the K2 signature only. non-trivial = a session that re-executed a completed task (its recorded dependencies were replaced).", CLASS_DOC);
       r.floor("re-executions observed", r.get("re_executions") > 100);
       r
     }
     "C09" => {
-      let mut r = wf::run_classes("C09", t, s, &[CP { name: "td-mixed", n: 5000 * scale }, CP { name: "pure-mixed", n: 5000 * scale }], replay);
+      let mut r = with_exhaustive(wf::run_classes("C09", t, s, &[CP { name: "td-mixed", n: 5000 * scale }, CP { name: "pure-mixed", n: 5000 * scale }], replay.clone()), "C09", t, s, &replay);
       r.rule = format!("{}Classes: programs mixing all checker kinds. Monitor: per context operation the exact user-visible call pattern (Resource::read -> stamp_reader on that very reader before the task's first get; Resource::write -> write function -> stamp_writer seeing the written value; written_to -> stamp at call time; require -> stamp of the returned output); every later check is handed the checker value and stamp of the dependency's creation; inconsistent => owner executed next, all consistent => owner not executed. non-trivial = a session with both consistent and inconsistent verdicts.", CLASS_DOC);
       r.floor("both verdicts observed", r.get("verdicts_consistent") > 100 && r.get("verdicts_inconsistent") > 100);
       r
@@ -116,7 +132,7 @@ pub fn run(args: &Args) -> Report {
       r
     }
     "C20" => {
-      let mut r = wf::run_classes("C20", t, s, &[CP { name: "td-any", n: 2000 * scale }, CP { name: "pure-any", n: 2000 * scale }, CP { name: "mixed-any", n: 1000 * scale }, CP { name: "td-inj-any", n: 3000 * scale }, CP { name: "mixed-inj-any", n: 2000 * scale }], replay);
+      let mut r = with_exhaustive(wf::run_classes("C20", t, s, &[CP { name: "td-any", n: 2000 * scale }, CP { name: "pure-any", n: 2000 * scale }, CP { name: "mixed-any", n: 1000 * scale }, CP { name: "td-inj-any", n: 3000 * scale }, CP { name: "mixed-inj-any", n: 2000 * scale }], replay.clone()), "C20", t, s, &replay);
       r.rule = format!("{}Well-formed classes: no abort may ever happen. Role-flip classes (value-conditional injected reads/writes/requires, so who writes, reads and requires what depends on the state): when pie aborts with a diagnosis, from-scratch builds of all known tasks in the current state (several evaluation orders) must hit the same kind of violation; otherwise the abort must be explained by the stale-edge classifier (finding K3: the other task named in the message was not executed in this session and, evaluated from scratch now, does not create that edge), else it is a violation. non-trivial = session with re-execution and reuse; aborts are counted per kind.", CLASS_DOC);
       r.floor("sessions ran", r.get("sessions") > 1000);
       r.floor("aborts confirmed by the from-scratch build observed", r.get("aborts_confirmed_by_from_scratch_build") > 20);
@@ -128,6 +144,7 @@ pub fn run(args: &Args) -> Report {
       r
     }
   };
+  if matches!(args.property.as_str(), "C01" | "C02" | "C03" | "C04" | "C08" | "C09" | "C20") { r.rule.push_str(EXH_DOC); }
   if replay_mode(args) { r.inconclusive.clear(); }
   let _ = Rng::new(0);
   r
